@@ -108,7 +108,7 @@ def run(res):
                     walk(n["children"], a, b)
                 elif n["kind"] == "if":
                     # an if-group spans several sibling tags: its branches' children lie inside the group's span
-                    walk(n["children"], a, max(b, hi) if b < a else hi)
+                    walk(n["children"], a, b)
                     prev = max(prev, a)
         for t in j["trees"]:
             walk(t, 0, len(src))
